@@ -179,11 +179,16 @@ pub fn exec(spec: &Spec, r: &mut RunResult) {
                 r.bump("c12.later_ops_compared", 1);
                 if out != fresh {
                     // control: the same history WITHOUT any injected panic (history dependence is C10's subject)
-                    let control = {
+                    // two crash-free controls: with the crashed operation run to completion, and without it at all (a
+                    // solver that discards its in-progress state on unwinding is then in the state of the shorter history)
+                    let mut run_control = |skip_first: bool| {
                         let dbc = mk_db(&l, &spec.db);
                         let mut sc = make_slots(&spec.slots);
                         let mut last = None;
                         for (ci, cop) in spec.ops.iter().enumerate().take(oi + 1) {
+                            if skip_first && ci == 0 {
+                                continue;
+                            }
                             let cg = match l.goals.get(cop.goal).and_then(|g| g.as_ref()) {
                                 Some(g) => g.clone(),
                                 None => continue,
@@ -195,7 +200,9 @@ pub fn exec(spec: &Spec, r: &mut RunResult) {
                         }
                         last
                     };
-                    if control.as_ref() == Some(&out) {
+                    let control = run_control(false);
+                    let control2 = if control.as_ref() == Some(&out) { None } else { run_control(true) };
+                    if control.as_ref() == Some(&out) || control2.as_ref() == Some(&out) {
                         r.bump("c12.deviation_also_without_fault_attributed_to_history", 1);
                         break;
                     }
